@@ -146,15 +146,15 @@ def monitor_case(case, obs, rerun=IC.run_case):
     # -- the response ---------------------------------------------------------------------------
     complete = stream_complete(obs)
     if not complete:
-        if reports_success(oc) or oc.get("failure"):
+        if oc["kind"] != "raised" or oc.get("failure"):
             fails.append(("c19:outcome-from-truncated-stream:%s" % op,
                           "%s reported %s although the response stream ended early" % (op, outcome_class(oc))))
         elif oc["exc"] not in ("EOFError", "RequestLengthMismatch"):
-            fails.append(("c19:truncated-stream-wrong-error:%s:%s" % (op, oc["exc"]),
+            fails.append(("c19:truncated-stream-wrong-error:%s" % oc["exc"],
                           "stream ended early; the client raised %s: %s" % (oc["exc"], oc.get("text"))))
         return fails
     if resp.get("corrupt"):
-        if independently_undecodable(case, obs) and (reports_success(oc) or oc.get("failure")):
+        if independently_undecodable(case, obs) and (oc["kind"] != "raised" or oc.get("failure")):
             fails.append(("c19:outcome-from-undecodable-response:%s:%s" % (op, resp["corrupt"]),
                           "%s reported %s for a response the codec cannot decode" % (op, outcome_class(oc))))
         return fails
@@ -209,6 +209,8 @@ def monitor_engine_step(version, st):
     if not sv["decoded"]:
         return [("c19:request-undecodable:%s:%s" % (op, sv["error"].split(":")[0]),
                  "%s under KMIP %s: the server-side decoder rejects the request: %s" % (op, version, sv["error"]))]
+    if "engine_error" in sv:
+        return [("c19:harness:engine-error", "%s: %s" % (op, sv["engine_error"]))]
     it = sv["item"]
     if "data_error" in it:
         return [("c19:harness:engine-data", it["data_error"])]
@@ -284,13 +286,24 @@ def monitor_frames(case, obs):
             rest = rest[len(mb):]
         else:
             break
-    got = [f.get("ok") for f in obs["frames"]]
+    # a client stops at the first error (a closed connection stays closed); look at the reads up to there
+    got = []
+    first_error = None
+    for f in obs["frames"]:
+        if "ok" not in f:
+            first_error = f
+            break
+        got.append(f["ok"])
     fails = []
-    if got[:len(want)] != want:
-        fails.append(("c19:frame-not-intact", "messages %s, delivered frames %s" % (case["messages"], got)))
-    if any(g is not None for g in got[len(want):]):
-        fails.append(("c19:frame-from-truncated-stream", "frames %s from a stream holding %d complete messages"
-                      % (got, len(want))))
+    if got != want:
+        fails.append(("c19:frame-not-intact" if len(got) <= len(want) else "c19:frame-from-truncated-stream",
+                      "the stream holds the complete messages %s; read() delivered %s" % (want, got)))
+    elif first_error is None or first_error["err"] not in ("EOFError", "RequestLengthMismatch"):
+        fails.append(("c19:truncated-stream-wrong-error", "after %d complete messages read() gave %s"
+                      % (len(want), first_error)))
+    elif (first_error["err"] == "EOFError") != (len(rest) == 0):
+        fails.append(("c19:truncated-stream-wrong-error", "%d bytes of an incomplete message arrived; read() gave %s"
+                      % (len(rest), first_error)))
     return fails
 
 
@@ -525,9 +538,9 @@ def run(ctx):
         cov["evaluations"] += 1
         for sig, what in fails:
             report(ctx, sig, what, case)
-    div = execute(ctx, matrix_cases(ctx.seed, 3 if quick else 40), cov)
-    run_engine_cases(ctx, cov, ctx.seed, 2 if quick else 20)
-    fdiv = run_frames_cases(ctx, cov, ctx.seed, 400 if quick else 8000)
+    div = execute(ctx, matrix_cases(ctx.seed, 6 if quick else 150), cov)
+    run_engine_cases(ctx, cov, ctx.seed, 3 if quick else 40)
+    fdiv = run_frames_cases(ctx, cov, ctx.seed, 600 if quick else 20000)
     if div or fdiv:
         n0 = len(ctx.violations)
         neighbourhood(ctx, div, cov, 30 if quick else 200)
